@@ -8,7 +8,8 @@ in one chunk):
           with every on-grid sinusoid (bin x phase) inside: N = 4096, dt = 0.01.  Oracle: on the
           middle third the output is |H(f)|^2 times the input, same phase, |H|^2 being the analytic
           digital Butterworth squared magnitude (bilinear transform with pre-warping, plain
-          math.tan - no scipy in the oracle).  Length / dt preserved; filter_order defaults to 4.
+          math.tan - no scipy in the oracle).  Length / dt preserved; filter_order defaults to 4: calls that omit
+          the order (and the Gibbs option) are interleaved with the explicit calls at every order, see run_gain.
 * 'lin'   (engine T)  the same setting on N = 40: all 40 impulse responses and all 1600 ordered
           pairs e_i + 2 e_j: bp(x + 2y) = bp(x) + 2 bp(y).
 * 'word'  (engine T)  one non-zero word over {-1,0,2}: detrending (exact-rational least squares
@@ -70,7 +71,9 @@ def build(tier, seed):
         'cases': cases,
         'rule': "kind 'gain': complete product cut-offs %s x container {tuple, list, ndarray (band-pass only)} x order %s x "
                 "remove_gibbs %s (one pool case each; same menu in both tiers, nothing thinned) with all bins k in %s x "
-                "phase %s inside, N=%d, dt=%g, plus the default-order call at order 4; kind 'lin': same settings, N=%d, all 40 "
+                "phase %s inside, N=%d, dt=%g, each sinusoid through the call sequence [cut-offs only] ... [explicit order and Gibbs option; "
+                "order omitted (documented default 4); cut-offs only] at EVERY order, the two cut-offs-only results compared "
+                "bit for bit; kind 'lin': same settings, N=%d, all 40 "
                 "impulses and all 1600 ordered pairs e_i+2e_j; kind 'word': all non-zero words over {-1,0,2} of length 2..%d "
                 "x (degree 0..4 with k<=L-2 x {object, array fn} x {direct, idempotence, k+2 added polynomials}; "
                 "add_constant/add_series/add_signal x {Signal, AccSignal} x {float, int} + 8 rejections; widths 1..25 x "
@@ -88,6 +91,7 @@ def build(tier, seed):
                              'gibbs-None', 'gibbs-start', 'gibbs-end', 'gibbs-mid',
                              'cutoff-tuple', 'cutoff-list', 'cutoff-ndarray',
                              'gain-pass', 'gain-transition', 'gain-stop', 'tol-narrow-band', 'default-order',
+                             'default-order-after-other-order', 'default-all', 'history-pair',
                              'lin-pair', 'lin-response-nonzero',
                              'detrend-deg-0', 'detrend-deg-1', 'detrend-deg-2', 'detrend-deg-3', 'detrend-deg-4',
                              'detrend-object', 'detrend-array', 'detrend-changed', 'detrend-residual-nonzero',
@@ -221,11 +225,14 @@ def _setting_classes(r, c):
 _CUT = {}
 
 
-def _filter(values, dt, c, default_order=False):
+def _filter(values, dt, c, default_order=False, default_gibbs=False):
     """The cut-off container is built once per pool case and the SAME object is handed to every butter_pass call of the case
-    (the way a caller filters several records with one setting); it is snapshot-checked after each call (see _cut_unchanged)."""
+    (the way a caller filters several records with one setting); it is snapshot-checked after each call (see _cut_unchanged).
+    default_order / default_gibbs: the keyword is omitted (documented defaults: filter_order 4, remove_gibbs None)."""
     s = eqsig.Signal(values, dt)
-    kw = {'remove_gibbs': c['gibbs']}
+    kw = {}
+    if not default_gibbs:
+        kw['remove_gibbs'] = c['gibbs']
     if not default_order:
         kw['filter_order'] = c['order']
     key = (repr(c['cut']), c['container'])
@@ -262,47 +269,82 @@ def _shape_ok(r, sub, s, n, dt):
 
 
 def run_gain(c):
+    """Call sequence of one case (every call on a fresh Signal, all with the same cut-off object):
+      pass 1, per sinusoid:  butter_pass(cut)                                   nothing but the cut-offs ('all-omitted')
+      pass 2, per sinusoid:  butter_pass(cut, filter_order=n, remove_gibbs=g)   'explicit'
+                             butter_pass(cut, remove_gibbs=g)                   'default' (order omitted -> documented 4)
+                             butter_pass(cut)                                   'all-omitted' again
+    so that calls relying on the documented defaults are interleaved with calls that give every order 1..4 and every
+    Gibbs option explicitly.  "Of the requested order": a call that does not request an order has the gain of the
+    documented default order 4 whatever was requested in earlier calls on other records; and the identical call on the
+    identical record gives the identical result before and after them (the two all-omitted calls; bit-for-bit, it is
+    the same computation twice)."""
     r = Res()
     _CUT.clear()
     cut, order = c['cut'], c['order']
     base = {'cut': cut, 'container': c['container'], 'order': order, 'gibbs': c['gibbs'], 'N': N_LONG}
     _setting_classes(r, c)
     tol = gain_tol(cut, order)
+    tol4 = gain_tol(cut, 4)
     if tol == GAIN_TOL_NARROW:
         r.cls('tol-narrow-band')
     t = np.arange(N_LONG) * DT
     mid = slice(N_LONG // 3, 2 * N_LONG // 3)
-    modes = ('explicit', 'default') if order == 4 else ('explicit',)
     first = True
-    for k in BINS:
-        f = k / (N_LONG * DT)
-        g = gain2(f, DT, order, cut[0], cut[1])
-        for ph in PHASES:
-            x = np.sin(2 * np.pi * f * t + ph)
-            if 1e-3 < g < 1 - 1e-3:
-                r.nontrivial += 1
-            r.cls('gain-pass' if g > 0.9 else ('gain-stop' if g < 0.1 else 'gain-transition'))
-            for mode in modes:
-                sub = dict(base, k=k, phase=ph)
-                if mode == 'default':
-                    sub['order_arg'] = 'omitted'
-                    r.cls('default-order')
-                r.states += 1
-                claim = 'filter.cutoff-container' if first else ('filter.default-order' if mode == 'default' else 'filter.gain-phase')
-                ok, s = r.call(claim, base if first else sub, _filter, x, DT, c, mode == 'default')
-                if not ok:
-                    if first:
-                        return r      # this way of giving the cut-offs is not accepted at all: one report per setting
-                    continue
-                first = False
-                _cut_unchanged(r, base)
-                _shape_ok(r, sub, s, N_LONG, DT)
-                try:
-                    got = np.asarray(s.values)[mid]
-                except Exception:
-                    got = None
-                r.expect_close('filter.default-order' if mode == 'default' else 'filter.gain-phase', sub, got, g * x[mid],
-                               rtol=0.0, atol=tol, what='output on the middle third vs |H|^2=%.6g times input' % g)
+    before = {}
+    for rnd in ('before', 'interleaved'):
+        modes = ('all-omitted',) if rnd == 'before' else ('explicit', 'default', 'all-omitted')
+        for k in BINS:
+            f = k / (N_LONG * DT)
+            g = gain2(f, DT, order, cut[0], cut[1])
+            g4 = gain2(f, DT, 4, cut[0], cut[1])
+            for ph in PHASES:
+                x = np.sin(2 * np.pi * f * t + ph)
+                if rnd == 'interleaved':
+                    if 1e-3 < g < 1 - 1e-3:
+                        r.nontrivial += 1
+                    r.cls('gain-pass' if g > 0.9 else ('gain-stop' if g < 0.1 else 'gain-transition'))
+                for mode in modes:
+                    sub = dict(base, k=k, phase=ph)
+                    if mode == 'default':
+                        sub['order_arg'] = 'omitted'
+                        r.cls('default-order')
+                        if order != 4:
+                            r.cls('default-order-after-other-order')
+                    elif mode == 'all-omitted':
+                        sub['order_arg'] = 'omitted'
+                        sub['gibbs_arg'] = 'omitted'
+                        sub['when'] = 'first' if rnd == 'before' else 'after-explicit'
+                        r.cls('default-all')
+                    r.states += 1
+                    gclaim = 'filter.gain-phase' if mode == 'explicit' else 'filter.default-order'
+                    ok, s = r.call('filter.cutoff-container' if first else gclaim, base if first else sub, _filter, x, DT, c,
+                                   mode != 'explicit', mode == 'all-omitted')
+                    if not ok:
+                        if first:
+                            return r      # this way of giving the cut-offs is not accepted at all: one report per setting
+                        continue
+                    first = False
+                    _cut_unchanged(r, base)
+                    _shape_ok(r, sub, s, N_LONG, DT)
+                    try:
+                        full = np.array(s.values, copy=True)
+                        got = full[mid]
+                    except Exception:
+                        full = got = None
+                    gg, tt = (g, tol) if mode == 'explicit' else (g4, tol4)
+                    r.expect_close(gclaim, sub, got, gg * x[mid], rtol=0.0, atol=tt,
+                                   what='output on the middle third vs |H|^2=%.6g times input' % gg)
+                    if mode == 'all-omitted':
+                        if rnd == 'before':
+                            before[(k, ph)] = full
+                        elif before.get((k, ph)) is not None and full is not None:
+                            r.transitions += 1
+                            r.cls('history-pair')
+                            r.expect('filter.history-independent', sub, bits_equal(full, before[(k, ph)]),
+                                     'butter_pass(cut) on the same record gives a different result after calls with explicit '
+                                     'filter_order=%r, remove_gibbs=%r on other records than before them' % (order, c['gibbs']),
+                                     observed=full, expected=before[(k, ph)])
     return r
 
 
@@ -573,7 +615,10 @@ def snippet(case, v):
             "else: x = np.zeros(N); x[sub.get('i', 0)] += 1; x[sub.get('j', sub.get('i', 0))] += 2 * ('j' in sub)\n"
             "s = eqsig.Signal(x, dt)\n"
             "kw = {} if sub.get('order_arg') else {'filter_order': sub['order']}\n"
-            "s.butter_pass(cut, remove_gibbs=sub['gibbs'], **kw)\n"
+            "if not sub.get('gibbs_arg'): kw['remove_gibbs'] = sub['gibbs']\n"
+            "if sub.get('order_arg') and sub.get('when') != 'first':   # preceded by an explicit call on another record\n"
+            "    eqsig.Signal(x, dt).butter_pass(cut, filter_order=sub['order'], remove_gibbs=sub['gibbs'])\n"
+            "s.butter_pass(cut, **kw)\n"
             "print(len(s.values), s.dt, s.values[N // 3:N // 3 + 5], x[N // 3:N // 3 + 5])\n")
     if v.get('claim', '').startswith('running_average'):
         return head + ("s = eqsig.Signal(np.array(sub['w'], float if sub['dtype'] == 'float' else int), 0.1)\n"
